@@ -28,6 +28,7 @@ class Comparison:
         self.unknown = []       # things that could not be compared (silent)
         self.expansions = []
         self.expanded = {}      # id(El) -> elements it was replaced by
+        self.notes = []         # normalisations applied (reported as evidence)
 
     @property
     def ok(self):
@@ -314,9 +315,48 @@ class Matcher:
             i += 1
         return out
 
+    def opaque_refinement(self, A, B):
+        """a length prefixed body that one side treats as opaque octets (read whole and handed to a decoder of the dependency,
+        or written from bytes it produced) and the other side spells out as a sequence of fixed shape integers under the same
+        length prefix: the element-wise comparison has nothing to compare inside, so the spelled out side is folded into one
+        opaque element.  What those octets have to be is decided by the rule that evaluates the composer against the
+        specification (C07.R12 for the SEC1 point of an ECDSA key); the fold is recorded in the comparison notes."""
+        def body_of(els, k):
+            u = els[k]
+            out = []
+            m = k + 1
+            listed = u.extra.get('lp_body') if isinstance(u.extra.get('lp_body'), list) else []
+            while m < len(els) and (els[m].extra.get('in_lp') is u or any(els[m] is b for b in listed)):
+                out.append(els[m])
+                m += 1
+            return out
+        def prefixes(els):
+            inner = set()
+            for e in els:
+                if e.kind == 'u' and isinstance(e.extra.get('lp_body'), list):
+                    inner.update(id(b) for b in e.extra['lp_body'])
+            return [k for k, e in enumerate(els) if e.kind == 'u' and 'lp_body' in e.extra and not e.extra.get('in_lp') and id(e) not in inner]
+        for X, Y in ((A, B), (B, A)):
+            px, py = prefixes(X), prefixes(Y)
+            if len(px) != len(py):
+                continue        # the length prefixed parts do not correspond one to one: left to the element-wise comparison
+            for kx, ky in reversed(list(zip(px, py))):
+                x, y = X[kx], Y[ky]
+                if x.sig() != y.sig():
+                    continue
+                bx, by = body_of(X, kx), body_of(Y, ky)
+                if len(bx) == 1 and bx[0].kind == 'raw' and len(by) > 1 and all(e.kind in ('u', 'const', 'mpint', 'raw') and not e.extra.get('lp_body') for e in by):
+                    folded = El('raw', key=by[0].key, op=by[0].op)
+                    folded.extra = {'in_lp': y, 'folded': [e.sig() for e in by]}
+                    folded.conditional = getattr(by[0], 'conditional', False)
+                    Y[ky + 1:ky + 1 + len(by)] = [folded]
+                    self.c.notes.append('the %d elements %s inside a length prefix are compared as the opaque body the other side has there' % (len(by), ' '.join(e.sig() for e in by)))
+        return A, B
+
     def seq(self, A, B, where):
         A = self.prep(list(A), self.side_a)
         B = self.prep(list(B), self.side_b)
+        A, B = self.opaque_refinement(A, B)
         i = j = 0
         guard = 0
         while i < len(A) or j < len(B):
